@@ -122,7 +122,7 @@ class C11(Prop):
             return rng.randint(-MAX_DUR, MAX_DUR)
 
         # --- arithmetic -------------------------------------------------------------------------
-        n_arith = 700 if quick else 60000
+        n_arith = 2000 if quick else 60000
         for _ in range(n_arith):
             op = rng.choice(ARITH_OPS)
             l, o = rand_loc(), rand_off()
@@ -162,7 +162,7 @@ class C11(Prop):
                 c["tz"] = ""
             return c
 
-        n_acc = 900 if quick else 40000
+        n_acc = 2500 if quick else 40000
         for _ in range(n_acc):
             tzkind = rng.choices(["none", "fixed", "iana", "bad"], [2, 6, 2, 1])[0]
             l, o = rand_loc(), rand_off()
@@ -193,7 +193,7 @@ class C11(Prop):
             return ip + "."
 
         units = ["ns", "us", "µs", "ms", "s", "m", "h", "d"]
-        n_dur = 600 if quick else 40000
+        n_dur = 1500 if quick else 40000
         for _ in range(n_dur):
             r = rng.random()
             via = rng.choice(["direct", "direct", "I", "C"])
@@ -253,6 +253,34 @@ class C11(Prop):
         return cases
 
     # ------------------------------------------------------------------------------------------
+    def extra_checks(self, tier, rng):
+        """thorough: EVERY day of years 0001..9999 — `date.fromordinal` (fields + isoweekday) against the
+        Lean calendar and against the independent integer calendar"""
+        if tier != "thorough":
+            return []
+        from ..core import run_driver
+        bad = None
+        n_total = 3652059
+        step = 400000
+        for lo in range(0, n_total, step):
+            hi = min(n_total, lo + step)
+            outs = run_driver("C11", [f"civil {n}" for n in range(lo, hi)])
+            for n, mo in zip(range(lo, hi), outs):
+                d = datetime.date.fromordinal(n + 1)
+                got = f"{d.year} {d.month} {d.day} {d.isoweekday()}"
+                y, m, dd = civil_from_days(n - EPOCH_IDX)
+                exp = f"{y} {m} {dd} {(n - EPOCH_IDX + 3) % 7 + 1}"
+                if got != mo or got != exp:
+                    bad = (n, got, mo, exp)
+                    break
+            if bad:
+                break
+        if bad:
+            n, got, mo, exp = bad
+            return [{"name": "full-day-sweep", "ok": False, "case": {"kind": "prim", "n": n},
+                     "detail": f"day {n}: datetime says {got}, Lean model {mo}, integer calendar {exp}"}]
+        return [{"name": "full-day-sweep", "ok": True, "detail": f"all {n_total} days of years 0001-9999: datetime = Lean model = integer calendar"}]
+
     def impl(self, c):
         from celpy import celtypes
         k = c["kind"]
